@@ -160,13 +160,22 @@ _CALL = re.compile(r'when calling (?P<call>\w+\(.*?\))(?: \(which (?:returns|rai
 
 
 def parse_call(call: str, fn) -> dict:
-    """'f(1, [2], b"x")' -> {'a': 1, 'b': [2], 'c': b'x'} using fn's signature."""
+    """'f(1, [2], b"x")' -> {'a': 1, 'b': [2], 'c': b'x'} using fn's signature. CrossHair may print aliases with the
+    walrus operator (f(v1:=b'', v1)), so the call is evaluated with a capturing stand-in and no builtins."""
     node = ast.parse(call, mode='eval').body
-    assert isinstance(node, ast.Call)
-    pos = [ast.literal_eval(a) for a in node.args]
-    kw = {k.arg: ast.literal_eval(k.value) for k in node.keywords}
+    assert isinstance(node, ast.Call) and isinstance(node.func, ast.Name)
+    for n in ast.walk(node):
+        if isinstance(n, (ast.Attribute, ast.Lambda, ast.Await, ast.Yield)) or (isinstance(n, ast.Call) and n is not node and not (
+                isinstance(n.func, ast.Name) and n.func.id in ('bytearray', 'set', 'frozenset', 'dict', 'list', 'tuple', 'float'))):
+            raise ValueError('not a literal call: ' + call)
+    captured = {}
+
+    def cap(*a, **k):
+        captured['a'], captured['k'] = a, k
+    eval(compile(ast.Expression(node), '<cex>', 'eval'), {'__builtins__': {}, node.func.id: cap, 'bytearray': bytearray, 'set': set,
+                                                          'frozenset': frozenset, 'dict': dict, 'list': list, 'tuple': tuple, 'float': float})
     sig = inspect.signature(fn)
-    ba = sig.bind(*pos, **kw)
+    ba = sig.bind(*captured['a'], **captured['k'])
     return dict(ba.arguments)
 
 
